@@ -127,7 +127,7 @@ def run(ctx):
     pool = cf.ThreadPoolExecutor(max_workers=8)   # independent TLC runs (models and generators) side by side
     models = [pool.submit(ctx.model, "MC_Chaining", "MC_Chaining_quick.cfg" if quick else "MC_Chaining_thorough.cfg", workers=1),
               pool.submit(ctx.model, "MC_Resolution", "MC_Resolution_quick.cfg" if quick else "MC_Resolution_thorough.cfg", workers=W),
-              pool.submit(ctx.model, "MC_Resolution", "MC_Resolution_cache.cfg", workers=1),
+              pool.submit(ctx.model, "MC_Resolution", "MC_Resolution_cache.cfg" if quick else "MC_Resolution_cache_thorough.cfg", workers=1),
               pool.submit(ctx.model, "MC_Resolution", "MC_Resolution_live.cfg" if quick else "MC_Resolution_live2.cfg", workers=1)]
 
     # ---------------------------------------------------------------- Chaining on the code
